@@ -4,6 +4,7 @@ import (
 	"flag"
 	"fmt"
 	"os"
+	"sort"
 	"strconv"
 	"strings"
 	"time"
@@ -40,6 +41,8 @@ func cmdRun(args []string) {
 	ua := fs.Bool("unwind-assume", false, "prune instead of fail at unwind limit")
 	merge := fs.String("merge", "", "comma separated functions to summarise")
 	lazy := fs.Bool("lazy", false, "lazy feasibility")
+	forks := fs.Bool("forks", false, "print the sites with most forks")
+	autouf := fs.Bool("autouf", false, "sweep mode: unknown callees become uninterpreted functions, scope predicates stubbed")
 	deadline := fs.Duration("deadline", 0, "stop exploring after this long")
 	params := fs.String("params", "", "comma separated name=value harness parameters (integers; name:=value for strings)")
 	fs.Parse(args)
@@ -53,6 +56,10 @@ func cmdRun(args []string) {
 	cfg := defaultConfig()
 	cfg.Solver, cfg.Unwind, cfg.ListBound, cfg.ByteBound, cfg.UnwindAssume = *solver, *unwind, *list, *bytesB, *ua
 	cfg.LazyFeas = *lazy
+	cfg.AutoUF = *autouf
+	if *autouf {
+		scopeStubs(cfg)
+	}
 	if *deadline > 0 {
 		cfg.Deadline = time.Now().Add(*deadline)
 	}
@@ -92,6 +99,23 @@ func cmdRun(args []string) {
 		}
 		res := e.Run(fn)
 		fmt.Print(res.Summary())
+		if *forks {
+			type kv struct {
+				k string
+				v int
+			}
+			var l []kv
+			for k, v := range res.ForkSites {
+				l = append(l, kv{k, v})
+			}
+			sort.Slice(l, func(i, j int) bool { return l[i].v > l[j].v })
+			for i, x := range l {
+				if i >= 15 {
+					break
+				}
+				fmt.Printf("   fork %6d %s\n", x.v, x.k)
+			}
+		}
 		if *verbose {
 			for i, pr := range res.Paths {
 				fmt.Printf("   path %d: %s %s @%s covers=%v stubs=%v\n", i, pr.End, pr.Msg, pr.Site, pr.Covers, pr.Stubs)
